@@ -85,6 +85,11 @@ def taste_ok(path):
 def recipe_src(inname, outname, kind):
     if kind == 0:
         return f'def recipe(fi, arr):\n    """{outname}"""\n    return arr[..., fi["{inname}"]] * 0.5 + 3.0\n'
+    if kind == 2:       # a flag: the recipe returns booleans
+        return f'def recipe(fi, arr):\n    """{outname}"""\n    return arr[..., fi["{inname}"]] > 0.5\n'
+    if kind == 3:       # a bin index: the recipe returns integers
+        return (f'import numpy as np\ndef recipe(fi, arr):\n    """{outname}"""\n'
+                f'    return np.floor(arr[..., fi["{inname}"]] * 4.0).astype(int)\n')
     return (f'import numpy as np\ndef recipe(fi, arr):\n    """{outname}_a {outname}_b"""\n'
             f'    return np.stack([arr[..., fi["{inname}"]] ** 2, -arr[..., fi["{inname}"]]], axis=-1)\n')
 
@@ -94,12 +99,17 @@ def apply_recipe(exp, inname, outname, kind, kept):
     e = exp.copy()
     ci = exp.names.index(inname)
     kc = [exp.names.index(k) for k in kept]
-    e.names = list(kept) + ([outname] if kind == 0 else [outname + "_a", outname + "_b"])
+    e.names = list(kept) + ([outname] if kind in (0, 2, 3) else [outname + "_a", outname + "_b"])
     for lv in e.levels:
         for b in lv:
             a = b["arr"]
             if kind == 0:
                 new = (a[..., ci] * 0.5 + 3.0)[..., None]
+            elif kind == 2:
+                new = (a[..., ci] > 0.5).astype(np.float64)[..., None]
+            elif kind == 3:
+                with np.errstate(all="ignore"):
+                    new = np.floor(a[..., ci] * 4.0).astype(int).astype(np.float64)[..., None]
             else:
                 new = np.stack([a[..., ci] ** 2, -a[..., ci]], axis=-1)
             b["arr"] = np.concatenate([a[..., kc], new], axis=-1) if kc else new
@@ -178,12 +188,14 @@ def run_case(case, work, rec):
             elif kind == "chef":
                 inname = rng.choice(names)
                 outname = f"n{depth}x{counter}"
-                rk = rng.randrange(2)
+                rk = rng.randrange(4)
+                if rk >= 2:
+                    rec.count("chef_steps_with_a_recipe_that_returns_no_float64")
                 kept = rng.sample(names, rng.randint(0, len(names)))
                 rp = os.path.join(work, f"recipe{depth}.py")
                 with open(rp, "w") as f:
                     f.write(recipe_src(inname, outname, rk))
-                descr = f"chef(recipe on {inname} -> {outname}{'_a/_b' if rk else ''}, kept={kept})"
+                descr = f"chef(recipe on {inname} -> {outname}{'_a/_b' if rk == 1 else ' (flag)' if rk == 2 else ' (bin index)' if rk == 3 else ''}, kept={kept})"
                 Chef(plotfile=cur, recipe=rp, outfile=out, kept_fields=" ".join(kept) if kept else None,
                      serial=rng.random() < 0.5).cook()
                 new_exp = apply_recipe(exp, inname, outname, rk, kept)
